@@ -435,7 +435,10 @@ def solve_text(text, timeout=20, order=('z3', 'cvc5'), workdir=None, keep=None, 
             if winner.verdict == 'sat' and get_values:
                 winner.values = _parse_values(winner.output)
             return winner
-        return Result('unknown', '-', time.time() - t0, '\n'.join(outs))
+        joined = '\n'.join(outs)
+        if outs and all('(error' in o or 'Parse Error' in o for o in outs):
+            return Result('error', '-', time.time() - t0, joined)
+        return Result('unknown', '-', time.time() - t0, joined)
     finally:
         for name, p in procs:
             if p.poll() is None:
